@@ -23,6 +23,8 @@ struct R {
     drop_after_polls: Option<u32>,
     /// keep the completed call future alive for this many further scheduling steps
     linger: u32,
+    /// 1 or 2: which of the services built by separate `layer()` calls (own in-flight table each)
+    svc: u32,
 }
 
 #[derive(Clone, Debug)]
@@ -33,6 +35,7 @@ pub struct Cfg {
 
 pub fn gen(rng: &mut Prng, small: bool) -> Cfg {
     let n_keys = rng.range(1, 3) as u32;
+    let n_svcs = if rng.chance(0.25) { 2 } else { 1 };
     let n = if small { rng.range(3, 6) } else { rng.range(2, 12) };
     let span = if small { 16 } else { 40 };
     let mut reqs = vec![];
@@ -62,6 +65,7 @@ pub fn gen(rng: &mut Prng, small: bool) -> Cfg {
             drop_poll,
             drop_after_polls: drop_after,
             linger: if rng.chance(0.3) { rng.range(1, 25) as u32 } else { 0 },
+            svc: 1 + rng.below(n_svcs) as u32,
         });
     }
     Cfg { reqs, last_event: last }
@@ -79,10 +83,12 @@ pub fn run(cfg: &Cfg, seed: u64) -> (Arc<World>, crate::sim::SimStats) {
     let (w, stats, ()) = run_sim(seed, |sim| {
         let w = sim.w.clone();
         let layer = CoalesceLayer::new(|r: &Req| r.key);
-        let svc = layer.layer(w.probe(1));
+        // separate `layer()` calls: every service coalesces on its own
+        let svcs = [layer.layer(w.probe(1)), layer.layer(w.probe(2))];
         for (i, r) in cfg.reqs.iter().enumerate() {
             let gate = w.new_gate();
             let req = Req::new(i as u64 + 1, r.key, vec![Step { lat: Lat::Gate(gate), out: r.out }]);
+            let svc = &svcs[(r.svc - 1) as usize];
             let a = sim.actor(req.id, caller_linger(w.clone(), svc.clone(), req, r.pause, if r.linger > 0 { Linger::Polls(r.linger) } else { Linger::No }, map_err));
             sim.at_poll(r.arrive_poll, What::Start(a));
             sim.at_poll(r.open_poll, What::OpenGate(gate));
@@ -136,10 +142,12 @@ pub fn judge(cfg: &Cfg, log: &[Rec], stats: &crate::sim::SimStats) -> Report {
     let mut entered_since_ready: HashMap<u64, u64> = HashMap::new();
     let mut n_joined = 0u64;
     let mut leader_faults = 0u64;
-    let key_of = |req: u64| cfg.reqs[(req - 1) as usize].key;
+    // keys are per service: (service, key) folded into one number
+    let key_of = |req: u64| cfg.reqs[(req - 1) as usize].svc * 1000 + cfg.reqs[(req - 1) as usize].key;
     for r in log {
         match &r.ev {
-            Ev::InnerEnter { req, key, serial, .. } => {
+            Ev::InnerEnter { req, key, serial, group, .. } => {
+                let key = &(*group * 1000 + *key);
                 if let Some((s, l)) = flying.get(key) {
                     rep.violate("C11:two-inner-calls-one-key", format!("r{req} started inner call #{serial} for key {key} while #{s} (leader r{l}) was still in flight"));
                 }
@@ -147,7 +155,8 @@ pub fn judge(cfg: &Cfg, log: &[Rec], stats: &crate::sim::SimStats) -> Report {
                 leader_of.insert(*req, *serial);
                 entered_since_ready.insert(*req, *serial);
             }
-            Ev::InnerExit { key, serial, how, .. } => {
+            Ev::InnerExit { key, serial, how, group, .. } => {
+                let key = &(*group * 1000 + *key);
                 ended.insert(*serial, how.clone());
                 if flying.get(key).map(|f| f.0) == Some(*serial) {
                     flying.remove(key);
